@@ -530,6 +530,101 @@ try:
 except RuntimeError as _re_{n}:
     print('{p}', 'class access raised', _re_{n})
 '''),
+    (['generator', 'gen_base_exception'], '''
+import contextlib
+@contextlib.contextmanager
+def guard_{n}(log):
+    try:
+        yield 'guarded'
+    except SystemExit as e:
+        log.append('exit %r handled' % (e.code,))
+    except KeyboardInterrupt:
+        log.append('interrupt handled')
+    finally:
+        log.append('left')
+def reacts_{n}(log):
+    while True:
+        try:
+            got = yield 'ready'
+            log.append(('sent', got))
+        except KeyboardInterrupt:
+            log.append('KeyboardInterrupt inside')
+            yield 'after interrupt'
+        except GeneratorExit:
+            log.append('GeneratorExit inside')
+            raise
+_lg_{n} = []
+with guard_{n}(_lg_{n}):
+    raise SystemExit(3)
+with guard_{n}(_lg_{n}):
+    raise KeyboardInterrupt()
+_rg_{n} = reacts_{n}(_lg_{n})
+next(_rg_{n})
+print('{p}', _rg_{n}.send(1), _rg_{n}.throw(KeyboardInterrupt()), next(_rg_{n}))
+_rg_{n}.close()
+print('{p}', _lg_{n})
+'''),
+    (['generator', 'gen_close_visible'], '''
+def stubborn_{n}():
+    try:
+        yield 1
+    except GeneratorExit:
+        yield 'ignored the close'
+def failing_cleanup_{n}():
+    try:
+        yield 1
+    finally:
+        raise LookupError('cleanup failed')
+def counting_{n}(log):
+    try:
+        for i in range(5):
+            yield i
+    finally:
+        log.append('closed after %d' % i)
+_cl_{n} = []
+_g1_{n} = stubborn_{n}(); next(_g1_{n})
+try:
+    _g1_{n}.close()
+    _cl_{n}.append('closed quietly')
+except RuntimeError as e:
+    _cl_{n}.append('RuntimeError: %s' % e)
+_g2_{n} = failing_cleanup_{n}(); next(_g2_{n})
+try:
+    _g2_{n}.close()
+except LookupError as e:
+    _cl_{n}.append('LookupError: %s' % e)
+_g3_{n} = counting_{n}(_cl_{n}); next(_g3_{n}); next(_g3_{n}); _g3_{n}.close()
+for _v_{n} in counting_{n}(_cl_{n}):
+    if _v_{n} == 3:
+        break
+print('{p}', _cl_{n})
+'''),
+    (['redefinition', 'defaults'], '''
+_cbs_{n} = []
+for _i_{n} in range(3):
+    def cb_{n}(x, i=_i_{n}, *, scale=_i_{n} * 10):
+        return (x, i, scale)
+    _cbs_{n}.append(cb_{n})
+def make_adder_{n}(k):
+    def adder(x, k=k):
+        return x + k
+    return adder
+def make_kw_{n}(tag):
+    def tagged(*, tag=tag):
+        return tag
+    return tagged
+_ad_{n} = [make_adder_{n}(k) for k in (1, 10, 100)]
+_kw_{n} = [make_kw_{n}(t) for t in 'abc']
+print('{p}', [f(0) for f in _cbs_{n}], [f(1) for f in _ad_{n}], [f() for f in _kw_{n}],
+      len({{id(f) for f in _cbs_{n}}}), _cbs_{n}[0] is _cbs_{n}[1])
+class Holder_{n}:
+    handlers = []
+    for _j in range(2):
+        def handle(self, j=_j):
+            return ('handled', j)
+        handlers.append(handle)
+print('{p}', [h(None) for h in Holder_{n}.handlers])
+'''),
     (['lib_use'], '''
 print('{p}', 'lib', c08lib.alpha.fa(1), c08lib.beta.fb(1), c08lib.gamma.fg(1))
 '''),
